@@ -267,7 +267,7 @@ theorem registry_subtypes_is_spec :
     evpn.map (·.1) = [1, 2, 3, 4, 5] ∧ mvpn.map (·.1) = [5, 6, 7]
     ∧ mup.map (fun r => (r.1, r.2.1)) = [(1, 1), (1, 2), (1, 3), (1, 4)]
     ∧ bgplsCodes = [1, 2, 3, 4, 6] ∧ bgpls.map (·.1) = bgplsCodes
-    ∧ pmsi.map (·.1) = [0, 6] ∧ prefixsid.map (·.1) = [1, 3]
+    ∧ pmsi.map (·.1) = [0, 6] ∧ prefixsid.map (·.1) = [1, 3, 5, 6]
     ∧ extended.length = 23 ∧ extended6.map (fun r => (r.1, r.2.1)) = [(0, 11), (0, 12)] := by decide
 
 /-- The framing constants the decoders compare against (the FlowSpec shift is deliberately not
